@@ -378,8 +378,13 @@ RelaxedNodeTuple(db, k) ==
         {<<n.envVars[i][1], n.envVars[i][3]>> : i \in {j \in DOMAIN n.envVars : ~n.envVars[j][3]}},
         <<>>, n.resources, n.overrides>>
     ELSE NodeTuple(db, k)
+\* a file of a static tree exists as a node only while something uses it: one that is used by
+\* nothing but the dynamic memory of PENDING steps belongs to that memory
+TreeFileOfDynMemory(db, f) ==
+  /\ f \in Files(db) /\ db.nodes[f].creator \in Keys(db) /\ db.nodes[db.nodes[f].creator].kind = "st"
+  /\ \A d \in DepT(db) : d[1] = f => DynMemoryEdge(db, d)
 RelaxedNodes(db) ==
-  {RelaxedNodeTuple(db, k) : k \in {k \in AttachedKeys(db) : ~DynOutputOfPending(db, k)}}
+  {RelaxedNodeTuple(db, k) : k \in {k \in AttachedKeys(db) : ~DynOutputOfPending(db, k) /\ ~TreeFileOfDynMemory(db, k)}}
 RelaxedEdges(db) ==
   {d \in CanonEdges(db) : ~DynMemoryEdge(db, d) /\ ~DynOutputOfPending(db, d[1])
                           /\ ~DynOutputOfPending(db, d[2])}
